@@ -41,6 +41,11 @@ package cache
 //@   modifies nothing
 //@   ensures (err == nil) == opImported(key, value)
 
+// requestUser: the identity on whose behalf the current API request acts (set by auth.UserFromCtx; nil
+// outside of a request). While it is set, every edit must name it explicitly as author (C17), so the
+// variants that silently take the repository's configured user must not be used.
+//@ ghost var requestUser *IdentityCache
+
 //@ func (*BugCache).AddCommentRaw
 //@ func (*BugCache).ChangeLabelsRaw
 //@ func (*BugCache).ForceChangeLabelsRaw
@@ -50,9 +55,27 @@ package cache
 //@ func (*BugCache).EditCreateCommentRaw
 //@ func (*BugCache).EditCommentRaw
 //@ func (*BugCache).SetMetadataRaw
+//@ func (*RepoCacheBug).NewRaw
 //@   trusted
+//@   requires [authored-by-request-user] requestUser != nil ==> typeof(author) == type[*IdentityCache] && author.(*IdentityCache) == requestUser
 //@   modifies bugOps, repoWrites
 //@   ensures bugOps >= old(bugOps) && (err == nil ==> bugOps == old(bugOps) + 1)
+
+//@ func (*BugCache).AddComment
+//@ func (*BugCache).AddCommentWithFiles
+//@ func (*BugCache).ChangeLabels
+//@ func (*BugCache).ForceChangeLabels
+//@ func (*BugCache).Open
+//@ func (*BugCache).Close
+//@ func (*BugCache).SetTitle
+//@ func (*BugCache).EditCreateComment
+//@ func (*BugCache).EditComment
+//@ func (*BugCache).SetMetadata
+//@ func (*RepoCacheBug).New
+//@ func (*RepoCacheBug).NewWithFiles
+//@   trusted
+//@   requires [request-user-must-be-explicit] requestUser == nil
+//@   modifies bugOps, repoWrites
 
 // Reading the compiled snapshot or the id of a cached entity appends nothing.
 //@ func (*CachedEntityBase).Snapshot
